@@ -31,7 +31,7 @@ using UTAP::range_t;
 // The operations, by name.  Every case is (type, op, a, b, c, d, e):
 //   A=[a,b] non-empty, B=[c,d] non-empty, e an element.
 static const char* OPS[] = {"gt", "geq", "lt", "leq", "and", "or", "and_e", "or_e", "add", "sub", "mul", "add_e", "sub_e",
-                            "mul_e", "contains", "intersects", "eq", "eq_e", "less", "greater", "size", "empty_eq"};
+                            "mul_e", "contains", "intersects", "eq", "eq_e", "less", "greater", "size", "empty_eq", "self", "first_arg", "last_arg"};
 static constexpr int NOPS = sizeof(OPS) / sizeof(OPS[0]);
 
 template <typename T>
@@ -365,6 +365,94 @@ static std::optional<std::string> check_case(int op, T a, T b, T c, T d, T e)
             return out(std::string("empty contains"));
         return std::nullopt;
     }
+    case 22: {  // the operand is the object itself: r op= r must equal r op= (a distinct object of equal value)
+        const range_t<T> O = A;
+        auto same = [](const range_t<T>& r, const range_t<T>& q) {
+            return (r.empty() && q.empty()) || (!r.empty() && !q.empty() && r.first() == q.first() && r.last() == q.last());
+        };
+        W p[] = {wa * wa, wa * wb, wb * wb};
+        bool add_ok = fits<T>(wa + wa) && fits<T>(wb + wb), sub_ok = fits<T>(wa - wb) && fits<T>(wb - wa),
+             mul_ok = fits<T>(p[0]) && fits<T>(p[1]) && fits<T>(p[2]);
+        if constexpr (FP) {
+            if (std::isnan(a - b) || std::isnan(a * b) || std::isnan(a + a) || std::isnan(b + b))
+                throw Skip{};
+        }
+        if (!add_ok && !sub_ok && !mul_ok && sizeof(T) >= sizeof(int))
+            throw Skip{};
+        range_t<T> r, q;
+        if (add_ok || sizeof(T) < sizeof(int)) {
+            r = A, q = A;
+            r += r;
+            q += O;
+            if (!same(r, q))
+                return out("r += r gives [" + show(r.first()) + "," + show(r.last()) + "], r += copy gives [" + show(q.first()) + "," + show(q.last()) + "]");
+        }
+        if (sub_ok || sizeof(T) < sizeof(int)) {
+            r = A, q = A;
+            r -= r;
+            q -= O;
+            if (!same(r, q))
+                return out("r -= r gives [" + show(r.first()) + "," + show(r.last()) + "], r -= copy gives [" + show(q.first()) + "," + show(q.last()) + "]");
+        }
+        if (mul_ok || sizeof(T) < sizeof(int)) {
+            r = A, q = A;
+            r *= r;
+            q *= O;
+            if (!same(r, q))
+                return out("r *= r gives [" + show(r.first()) + "," + show(r.last()) + "], r *= copy gives [" + show(q.first()) + "," + show(q.last()) + "]");
+        }
+        r = A, q = A;
+        r &= r;
+        q &= O;
+        if (!same(r, q) || !same(r, A))
+            return out(std::string("r &= r differs from r"));
+        r = A, q = A;
+        r |= r;
+        q |= O;
+        if (!same(r, q) || !same(r, A))
+            return out(std::string("r |= r differs from r"));
+        r = A;
+        if (!(r == r) || !r.intersects(r) || (r < r) || (r > r))
+            return out(std::string("r == r / r intersects r / !(r < r) fails"));
+        return std::nullopt;
+    }
+    case 23:    // the element operand is r.first() handed over directly: must equal handing over a copy of the value
+    case 24: {  // ... r.last()
+        auto same = [](const range_t<T>& r, const range_t<T>& q) {
+            return (r.empty() && q.empty()) || (!r.empty() && !q.empty() && r.first() == q.first() && r.last() == q.last());
+        };
+        const T v = op == 23 ? a : b;
+        const W wv = v;
+        auto show_r = [](const range_t<T>& r) { return r.empty() ? std::string("empty") : "[" + show(r.first()) + "," + show(r.last()) + "]"; };
+        const bool small = sizeof(T) < sizeof(int);
+        for (int k = 0; k < 9; ++k) {
+            if constexpr (FP) {
+                if ((k == 0 && (std::isnan(a + v) || std::isnan(b + v))) || (k == 1 && (std::isnan(a - v) || std::isnan(b - v))) ||
+                    (k == 2 && (std::isnan(a * v) || std::isnan(b * v))))
+                    continue;
+            } else {
+                if (!small && ((k == 0 && !(fits<T>(wa + wv) && fits<T>(wb + wv))) || (k == 1 && !(fits<T>(wa - wv) && fits<T>(wb - wv))) ||
+                               (k == 2 && !(fits<T>(wa * wv) && fits<T>(wb * wv)))))
+                    continue;
+            }
+            range_t<T> r = A, q = A;
+            const char* name = "";
+            switch (k) {
+            case 0: name = "+="; op == 23 ? r += r.first() : r += r.last(); q += v; break;
+            case 1: name = "-="; op == 23 ? r -= r.first() : r -= r.last(); q -= v; break;
+            case 2: name = "*="; op == 23 ? r *= r.first() : r *= r.last(); q *= v; break;
+            case 3: name = "|="; op == 23 ? r |= r.first() : r |= r.last(); q |= v; break;
+            case 4: name = "&="; op == 23 ? r &= r.first() : r &= r.last(); q &= v; break;
+            case 5: name = "gt"; op == 23 ? r.gt(r.first()) : r.gt(r.last()); q.gt(v); break;
+            case 6: name = "geq"; op == 23 ? r.geq(r.first()) : r.geq(r.last()); q.geq(v); break;
+            case 7: name = "lt"; op == 23 ? r.lt(r.first()) : r.lt(r.last()); q.lt(v); break;
+            case 8: name = "leq"; op == 23 ? r.leq(r.first()) : r.leq(r.last()); q.leq(v); break;
+            }
+            if (!same(r, q))
+                return out(std::string("r ") + name + (op == 23 ? " r.first()" : " r.last()") + " gives " + show_r(r) + ", with a copy of the value " + show_r(q));
+        }
+        return std::nullopt;
+    }
     }
     return std::nullopt;
 }
@@ -448,6 +536,8 @@ static void exhaustive_int8(int nthreads, bool full)
                         nontriv += (a < b);
                     }
                     run_case<int8_t>(20, a, b, a, b, 0, evals, skipped);
+                    for (int op = 22; op <= 24; ++op)
+                        run_case<int8_t>(op, a, b, a, b, 0, evals, skipped);
                     // binary ops: full = all (c,d); otherwise stride through c,d with boundary values always included
                     for (int c = -128; c <= 127; ++c) {
                         if (!full && !(c <= -126 || c >= 126 || (c >= -3 && c <= 3) || c == a || c == b || c == a - 1 ||
